@@ -230,6 +230,7 @@ def check_case(case, ex):
         elif ev['k'] == 'write':
             plans.append([{'kind': 'write_fail', 'at_event': ev['i'], 'partial': ev['n'] // 2, 'errno': 28}])
             plans.append([{'kind': 'write_fail', 'at_event': ev['i'], 'partial': 0, 'errno': 5}])
+            plans.append([{'kind': 'short_write', 'at_event': ev['i'], 'partial': max(ev['n'] // 2, 1)}])
         else:
             plans.append([{'kind': 'close_fail', 'at_event': ev['i'], 'lose': 2}])
     pk = Pm['pick']
